@@ -109,7 +109,7 @@ CLAUSES = {
 def proof_files(tier):
     return (["C13_angle.v", "C13_tac.v", "C13_defs.v"]
             + ["C13_f_%s.v" % k.replace(".", "_") for k in sorted(_FT)]
-            + ["C13_main.v", "C13.v"])
+            + ["C13_main.v"] + ["C13_s_%s.v" % p for p in PERIODIC] + ["C13.v"])
 
 
 # ---------------------------------------------------------------------------------------------
@@ -126,7 +126,7 @@ def _rand_epoch(rng):
 
 
 def cases(rng, tier):
-    n = 6 if tier == "quick" else 40
+    n = 4 if tier == "quick" else 40
     cs = []
     for p, fs in PERIODIC.items():
         for f in fs:
@@ -146,9 +146,9 @@ def cases(rng, tier):
     for _ in range(20 if tier == "quick" else 200):
         cs.append("%s.year()" % _rand_epoch(rng))
     # orbital finders: VSOP87 + interpolation (expensive in the model): a few
-    orb = [("Venus", "Epoch(1978, 10, 15.0)"), ("Earth", "Epoch(1989, 11, 20.0)"), ("Mars", "Epoch(2019, 2, 23.0)")]
+    orb = [("Venus", "Epoch(1978, 10, 15.0)")]
     if tier != "quick":
-        orb += [("Mercury", "Epoch(2000, 3, 1.0)"), ("Jupiter", "Epoch(2019, 2, 23.0)"), ("Saturn", "Epoch(1944, 1, 1.0)"),
+        orb += [("Earth", "Epoch(1989, 11, 20.0)"), ("Mars", "Epoch(2019, 2, 23.0)"), ("Mercury", "Epoch(2000, 3, 1.0)"), ("Jupiter", "Epoch(2019, 2, 23.0)"), ("Saturn", "Epoch(1944, 1, 1.0)"),
                 ("Uranus", "Epoch(1880, 1, 1.0)")]
     for p, e in orb:
         cs.append("%s.perihelion_aphelion(%s).jde()" % (p, e))
